@@ -197,7 +197,7 @@ class SysSim(Engine):
             if rng.chance(0.3):
                 ops.append({"op": "fill", "vseed": rng.randint(0, 10 ** 6)})
             op = {"op": kind, "type": rng.choice(["numpy", "pandas"]), "with_io": rng.chance(0.5), "dir": rng.choice(["new", "existing", "nested"]),
-                  "reuse": rng.chance(0.4)}
+                  "reuse": rng.weighted([(False, 5), (True, 3), ("other_csv", 2)])}
             if kind in ("pickle", "flows_csv", "stocks_csv") and rng.chance(0.35):
                 op["fault"] = rng.choice([
                     {"kind": "open_fail", "nth": rng.randint(1, 4), "errno": rng.choice(["EACCES", "ENOSPC", "EIO"])},
@@ -348,7 +348,8 @@ class SysSim(Engine):
         tags = dict(path=world["build"]["path"], sheets=bool(world["build"]["sheets"]))
         applied = set()
         try:
-            sys_, definition = build_system(world, st.tmp, faults, applied=applied)
+            holder = {}
+            sys_, definition = build_system(world, st.tmp, faults, applied=applied, holder=holder)
             outcome = ("ret", None)
         except Exception as e:  # noqa
             sys_, outcome = None, ("raise", exc_class(e))
@@ -386,9 +387,18 @@ class SysSim(Engine):
         world2 = _copy.deepcopy(world)
         if world["build"]["path"] == "direct":
             world2["naming"] = {"arrow": "ids", "ids": "no_spaces", "no_spaces": "arrow"}[world["naming"]]
+        if world["build"]["path"] in ("csv", "excel") and world["build"].get("via_readers"):
+            # the input files are rewritten in place (another scenario: labels in another order, one more category) and read
+            # again through the reader objects the caller kept
+            for d in world2["dims"][1:]:
+                if d.get("awkward"):
+                    continue
+                more = {"str": f"{d['letter']}9x", "int": 990 + ord(d["letter"]), "float": 990.5 + ord(d["letter"])}[d["dtype"]]
+                d["items"] = list(d["items"])[::-1] + ([more] if (world["build"]["dict_order"] + ord(d["letter"])) % 2 else [])
+            self._probe(st, "files_rewritten_same_reader_objects")
         self._cnt(st, "rebuild-from-same-definitions")
         try:
-            sys2, _ = build_system(world2, st.tmp, (), definition=definition)
+            sys2, _ = build_system(world2, st.tmp, (), definition=definition, holder=holder)
         except Exception as e:  # noqa
             raise Violation("rebuild-from-same-definitions", f"building a second system from the same definition objects raised {exc_class(e)}",
                             cls="rebuild-from-same-definitions", **tags)
@@ -799,9 +809,20 @@ class SysSim(Engine):
                     form=op.get("type") if kind == "to_dict" else kind, no_stocks=not world["stocks"])
         last = getattr(st, "last_target", {})
         reuse = last.get(kind) if op.get("reuse") else None
+        if op.get("reuse") == "other_csv" and kind in ("flows_csv", "stocks_csv"):
+            # flows and stocks of one system go into one directory
+            reuse = last.get({"flows_csv": "stocks_csv", "stocks_csv": "flows_csv"}[kind]) or reuse
+            if reuse:
+                self._probe(st, "flows_and_stocks_exported_into_one_directory")
         if reuse:
             self._probe(st, "export_into_location_of_an_earlier_export")
         st.pre_listing = set(os.listdir(reuse)) if (reuse and os.path.isdir(reuse)) else set()
+        st.pre_bytes = {}
+        for x in st.pre_listing:
+            fp = os.path.join(reuse, x)
+            if os.path.isfile(fp):
+                with open(fp, "rb") as fh:
+                    st.pre_bytes[x] = fh.read()
         fired, out, result, target = self._export(st, op, fault, target=reuse)
         last[kind] = target
         st.last_target = last
@@ -1058,12 +1079,26 @@ class SysSim(Engine):
             pre = getattr(st, "pre_listing", set())
             if not set(expected) <= have or (have - pre) - set(expected):
                 bad(f"directory holds {sorted(have)} (before the export: {sorted(pre)}) instead of {sorted(expected)}")
+            for x, blob in getattr(st, "pre_bytes", {}).items():
+                # what an earlier export (of other quantities) left in this directory is not this export's to remove or rewrite
+                if x in expected or getattr(st, "file_origin", {}).get((target, x), kind) == kind:
+                    continue  # its own earlier products are the exporter's business; those of the other export are not
+                fp = os.path.join(target, x)
+                if not os.path.isfile(fp):
+                    bad(f"file {x} of an earlier export into this directory disappeared")
+                with open(fp, "rb") as fh:
+                    if fh.read() != blob:
+                        bad(f"file {x} of an earlier export into this directory was rewritten")
             for fname, arr in expected.items():
                 if len(arr.dims) == 0:
                     continue
                 same_by_df(arr, pd.read_csv(os.path.join(target, fname), dtype=str, keep_default_na=False), f"file {fname}")
             if target in getattr(st, "unrelated_dirs", set()) and not os.path.exists(os.path.join(target, "unrelated.txt")):
                 bad("an unrelated file in the export directory disappeared")
+            if not hasattr(st, "file_origin"):
+                st.file_origin = {}
+            for fname in expected:
+                st.file_origin[(target, fname)] = kind
             return
         if kind == "to_dfs":
             d = make_definition(world)
